@@ -29,9 +29,11 @@ Section SiSdr.
 Context {T : Type} (P : ops T).
 Variables (Tn : nat) (s e : nat -> T).      (* reference, estimation *)
 Definition si_alpha : T := odiv P (ip P Tn s e) (ip P Tn s s).
-Definition si_target (t : nat) : T := omul P si_alpha (s t).
-Definition si_noise (t : nat) : T := osub P (e t) (si_target t).
-Definition si_ratio : T := odiv P (ip P Tn si_target si_target) (ip P Tn si_noise si_noise).
+Definition si_target (a : T) (t : nat) : T := omul P a (s t).          (* projection = alpha * reference *)
+Definition si_noise (a : T) (t : nat) : T := osub P (e t) (si_target a t).   (* estimation - projection *)
+Definition si_ratio : T :=
+  let a := si_alpha in
+  odiv P (ip P Tn (si_target a) (si_target a)) (ip P Tn (si_noise a) (si_noise a)).
 Definition si_sdr : T := dB P si_ratio.
 End SiSdr.
 
@@ -50,16 +52,15 @@ End Snr.
 (* ---------------------------------------------------------------- input_sxr *)
 Section InputSxr.
 Context {T : Type} (P : ops T).
-Variables (K D Tn : nat) (img : nat -> nat -> nat -> T) (noi : nat -> nat -> T).
-Definition in_S (k d : nat) : T := power P Tn (img k d).
+(* Sp[k, d] signal power of source k at sensor d, Np[d] noise power at sensor d *)
+Variables (K D : nat) (Sp : nat -> nat -> T) (Np : nat -> T).
 (* I[k, d] = np.sum(S[[n for n in range(K) if n != k], d]) *)
-Definition in_I (k d : nat) : T := bsum P K (fun n => if Nat.eqb n k then o0 P else in_S n d).
-Definition in_N (d : nat) : T := power P Tn (noi d).
+Definition in_I (k d : nat) : T := bsum P K (fun n => if Nat.eqb n k then o0 P else Sp n d).
 (* average_channels: np.mean(power, axis=-1) *)
 Definition avg_ch (avgc : bool) (f : nat -> T) (d : nat) : T := if avgc then mean P D f else f d.
-Definition in_Sa avgc k d := avg_ch avgc (in_S k) d.
+Definition in_Sa avgc k d := avg_ch avgc (Sp k) d.
 Definition in_Ia avgc k d := avg_ch avgc (in_I k) d.
-Definition in_Na avgc d := avg_ch avgc in_N d.
+Definition in_Na avgc d := avg_ch avgc Np d.
 Definition in_sdr_lin avgc k d : T := odiv P (in_Sa avgc k d) (oadd P (in_Ia avgc k d) (in_Na avgc d)).
 Definition in_sir_lin avgc k d : T := odiv P (in_Sa avgc k d) (in_Ia avgc k d).
 Definition in_snr_lin avgc k d : T := odiv P (in_Sa avgc k d) (in_Na avgc d).
@@ -69,6 +70,14 @@ Definition in_sdr avgc avgs k d : T := avg_src avgs (fun k => dB P (in_sdr_lin a
 Definition in_sir avgc avgs k d : T := avg_src avgs (fun k => dB P (in_sir_lin avgc k d)) k.
 Definition in_snr avgc avgs k d : T := avg_src avgs (fun k => dB P (in_snr_lin avgc k d)) k.
 End InputSxr.
+
+(* the powers of the signals handed to input_sxr: images[k, d, t], noise[d, t] *)
+Section InputSxrSignals.
+Context {T : Type} (P : ops T).
+Variables (Tn : nat) (img : nat -> nat -> nat -> T) (noi : nat -> nat -> T).
+Definition in_S (k d : nat) : T := power P Tn (img k d).
+Definition in_N (d : nat) : T := power P Tn (noi d).
+End InputSxrSignals.
 
 (* ---------------------------------------------------------------- output selection *)
 (* itertools.permutations(range(Kt), r=Ks): all injective length-r sequences, lexicographic *)
